@@ -16,6 +16,11 @@ pub struct RewardSpec {
     #[serde(with = "crate::ser::u128s")]
     pub emissions_x64: u128,
     pub vault_fund: u64,
+    /// reward mint: 0 SPL Token, 1 Token-2022, 2 Token-2022 with the transfer fee `fee`, 3 as 2 plus a transfer hook (badge issued)
+    #[serde(default)]
+    pub mint_kind: u8,
+    #[serde(default)]
+    pub fee: Option<(u16, u64)>,
 }
 
 #[derive(Clone, Debug, Serialize, Deserialize, Hash, PartialEq, Eq)]
@@ -311,8 +316,23 @@ impl Hist {
         w.user_token(treasury, &mb, 0);
         // rewards
         for (i, r) in spec.rewards.iter().take(3).enumerate() {
-            let rm = w.create_spl_mint();
-            let idx = w.init_reward(pool, &rm, i % 2 == 1).ok()?;
+            let rm = match r.mint_kind % 4 {
+                0 => w.create_spl_mint(),
+                1 => w.create_t22_mint(None),
+                2 => w.create_t22_mint(r.fee),
+                _ => {
+                    let m = w.create_t22_mint_hooked(r.fee, Some(crate::rt::hook_program(1 + (i as u8 % 2))));
+                    if w.configs[cfg].config_extension.is_none() {
+                        w.init_config_extension(cfg);
+                        let ix = w.ix_set_config_feature_flag(cfg, whirlpool::state::ConfigFeatureFlag::TokenBadge(true));
+                        w.must("token badge feature", &ix);
+                    }
+                    let ix = w.ix_init_token_badge(cfg, &m.key);
+                    w.must("token badge for a reward mint with a transfer hook", &ix);
+                    m
+                }
+            };
+            let idx = w.init_reward(pool, &rm, i % 2 == 1 || rm.program != TOKEN).ok()?;
             let vault = w.pools[pool].rewards[idx].vault;
             if r.vault_fund > 0 {
                 w.mint_to(&rm, &vault, r.vault_fund);
@@ -329,7 +349,7 @@ impl Hist {
                 w.bank.set(k, a);
             }
             if r.emissions_x64 > 0 {
-                let ix = w.ix_set_reward_emissions(pool, idx as u8, r.emissions_x64, false);
+                let ix = w.ix_set_reward_emissions(pool, idx as u8, r.emissions_x64, rm.program != TOKEN);
                 let mut ix = ix;
                 // reward authority = the config's super authority; it is a funded signer in this world
                 ix.accounts[1].is_signer = true;
@@ -753,9 +773,9 @@ impl Hist {
                 let idx = *index as usize % nrew;
                 res.pos = Some(p);
                 res.user = Some(self.w.positions[p].owner);
-                let rm = self.w.pools[self.pool].rewards[idx].mint.key;
-                let dest = self.w.user_token_existing(self.w.positions[p].owner, &rm);
-                self.w.ix_collect_reward(p, idx as u8, dest, *v2)
+                let rmi = self.w.pools[self.pool].rewards[idx].mint.clone();
+                let dest = self.w.user_token_existing(self.w.positions[p].owner, &rmi.key);
+                self.w.ix_collect_reward(p, idx as u8, dest, *v2 || rmi.program != TOKEN)
             }
             Op::SetEmissions { index, emissions_x64 } => {
                 let nrew = self.w.pools[self.pool].rewards.len();
@@ -763,7 +783,7 @@ impl Hist {
                     return res;
                 }
                 let idx = *index as usize % nrew;
-                self.w.ix_set_reward_emissions(self.pool, idx as u8, *emissions_x64, idx % 2 == 1)
+                self.w.ix_set_reward_emissions(self.pool, idx as u8, *emissions_x64, idx % 2 == 1 || self.w.pools[self.pool].rewards[idx].mint.program != TOKEN)
             }
             Op::SetEmissionsNearVault { index, delta } => {
                 let nrew = self.w.pools[self.pool].rewards.len();
@@ -776,7 +796,7 @@ impl Hist {
                 let e_max = (((b(vault as u128) + 1u32) << 64u32) - 1u32) / 86400u32;
                 let e = if *delta >= 0 { e_max + (*delta as u32) } else { e_max.checked_sub(&b((-*delta) as u128)).unwrap_or_default() };
                 let e: u128 = e.try_into().unwrap_or(u128::MAX);
-                self.w.ix_set_reward_emissions(self.pool, idx as u8, e, idx % 2 == 0)
+                self.w.ix_set_reward_emissions(self.pool, idx as u8, e, idx % 2 == 0 || self.w.pools[self.pool].rewards[idx].mint.program != TOKEN)
             }
             Op::FundRewardVault { index, amount } => {
                 let nrew = self.w.pools[self.pool].rewards.len();
@@ -863,8 +883,8 @@ pub fn spec_strategy(with_rewards: bool, wrap_bias: bool) -> BoxedStrategy<World
     };
     let rewards = if with_rewards {
         prop::collection::vec(
-            (prop_oneof![1 => Just(0u128), 6 => gen::bits_u128(90), 1 => gen::bits_u128(128)], prop_oneof![1 => Just(0u64), 4 => gen::bits_u64(62)])
-                .prop_map(|(e, f)| RewardSpec { emissions_x64: e, vault_fund: f }),
+            (prop_oneof![1 => Just(0u128), 6 => gen::bits_u128(90), 1 => gen::bits_u128(128)], prop_oneof![1 => Just(0u64), 4 => gen::bits_u64(62)], prop_oneof![5 => Just(0u8), 1 => Just(1u8), 2 => Just(2u8), 2 => Just(3u8)], tf_strategy())
+                .prop_map(|(e, f, mint_kind, fee)| RewardSpec { emissions_x64: e, vault_fund: f, mint_kind, fee: if mint_kind >= 2 { fee } else { None } }),
             1..=3,
         )
         .boxed()
